@@ -357,7 +357,7 @@ class Agent(object, metaclass=_MetaAgent):
         self.id = id
         self.model = model
         self.components = {}
-        self.tag = Agent.tag if tag is None else tag
+        self.tag = type(self).tag if tag is None else tag
 
     def __getitem__(self, item: type):
         """Wrapper for the ``Agent.get_component()`` function."""
